@@ -15,4 +15,22 @@ put("FINDINGS", "\n".join(rows))
 put("SEEDED", subprocess.run(["python3", V + "/tools/seedtable.py"], stdout=subprocess.PIPE, text=True).stdout.strip())
 p = V + "/tools/strengthen_log.md"
 put("STRENGTHEN", open(p).read().strip() if os.path.exists(p) else "(none yet)")
+import glob
+rows = ["| extension | host | spec family | subsystem and what the specification says | tier |", "|---|---|---|---|---|"]
+for f in sorted(glob.glob(V + "/props/ext_*.py")):
+    src = open(f).read()
+    g = {}
+    try:
+        import ast
+        for node in ast.parse(src).body:
+            if isinstance(node, ast.Assign) and len(node.targets) == 1 and isinstance(node.targets[0], ast.Name) \
+                    and node.targets[0].id in ("HOST", "WHAT", "QUICK", "FAM", "DISABLED"):
+                g[node.targets[0].id] = ast.literal_eval(node.value)
+    except Exception as ex:
+        g["WHAT"] = "(unreadable: %s)" % ex
+    if g.get("DISABLED"):
+        continue
+    rows.append("| %s | %s | specs/%s | %s | %s |" % (os.path.basename(f)[4:-3], g.get("HOST"), g.get("FAM", "?"),
+                str(g.get("WHAT", "")).replace("|", "/"), "quick+thorough" if g.get("QUICK") else "thorough"))
+put("EXTENSIONS", "\n".join(rows))
 open(V + "/DESIGN.md", "w").write(s)
